@@ -41,7 +41,7 @@ def run_group(g):
     """Worker entry. Returns a summary dict."""
     R = reg()
     res = {"prog": g.prog_id, "base": g.base_name, "runs": 0, "nontrivial": 0, "pruned": 0, "violations": [],
-           "refused": 0, "timeouts": 0, "readset": 0, "k_done": 0, "outcomes": {}, "cut": False}
+           "refused": 0, "timeouts": 0, "readset": 0, "k_done": 0, "outcomes": {}, "cut": False, "fired": {}, "tried": {}}
     hooks = tuple(set(g.hooks) | {"reads"})
 
     def one(devs):
@@ -85,6 +85,10 @@ def run_group(g):
                 res["cut"] = True
                 return res
             r1 = one((d1,))
+            # vacuity bookkeeping: did this single deviation change the output of this program at all?
+            res["tried"][d1[0]] = res["tried"].get(d1[0], 0) + 1
+            if not r1.timeout and r1.rc == 0 and r0.rc == 0 and r1.out != r0.out:
+                res["fired"][d1[0]] = res["fired"].get(d1[0], 0) + 1
             if g.k >= 2 and g.fam2 is not None and r1.reads is not None:
                 s2 = configs.singles(R, dict(g.base, **{d1[0]: d1[1]}), r1.reads, g.fam2, allow_lexer=g.allow_lexer)
                 n2 = 0
@@ -114,13 +118,16 @@ def case_files(case, r):
 def drive(ctx, groups, pool, chunksize=1, on_result=None):
     """Runs all groups; feeds violations to ctx.rep; returns aggregate statistics."""
     agg = {"groups": 0, "runs": 0, "nontrivial": 0, "pruned": 0, "refused": 0, "timeouts": 0,
-           "outcomes": {}, "readset_sizes": [], "cut_groups": 0}
+           "outcomes": {}, "readset_sizes": [], "cut_groups": 0, "fired": {}, "tried": {}}
     for res in pool.imap(run_group, groups, chunksize=chunksize, deadline=ctx.deadline):
         agg["groups"] += 1
         for k in ("runs", "nontrivial", "pruned", "refused", "timeouts"):
             agg[k] += res[k]
         for k, v in res["outcomes"].items():
             agg["outcomes"][k] = agg["outcomes"].get(k, 0) + v
+        for fk in ("fired", "tried"):
+            for k, v in res.get(fk, {}).items():
+                agg[fk][k] = agg[fk].get(k, 0) + v
         if res["readset"] >= 0:
             agg["readset_sizes"].append(res["readset"])
         if res["cut"]:
